@@ -11,6 +11,28 @@ use tracing::warn;
 /// Default base URL for GitHub API
 const DEFAULT_BASE_URL: &str = "https://api.github.com";
 
+/// Upper bound on the number of release pages that are followed
+const MAX_RELEASE_PAGES: usize = 20;
+
+/// The URL of the next page, from a `Link` header such as
+/// `<https://api.github.com/...?page=2>; rel="next", <...>; rel="last"`
+fn next_page_url(headers: &reqwest::header::HeaderMap) -> Option<String> {
+    let link = headers.get(reqwest::header::LINK)?.to_str().ok()?;
+    link.split(',').find_map(|part| {
+        let (target, params) = part.split_once(';')?;
+        if !params.split(';').any(|p| p.trim() == "rel=\"next\"") {
+            return None;
+        }
+        Some(
+            target
+                .trim()
+                .trim_start_matches('<')
+                .trim_end_matches('>')
+                .to_string(),
+        )
+    })
+}
+
 /// Response from GitHub Releases API
 #[derive(Debug, Deserialize)]
 struct Release {
@@ -80,44 +102,56 @@ impl Registry for GitHubRegistry {
         &self,
         package_name: &str,
     ) -> Result<PackageVersions, RegistryError> {
-        let url = format!("{}/repos/{}/releases", self.base_url, package_name);
+        // The API returns the releases in pages: follow the `Link: <...>; rel="next"`
+        // header so that older releases are known too
+        let mut next_url = Some(format!("{}/repos/{}/releases", self.base_url, package_name));
+        let mut releases: Vec<Release> = Vec::new();
+        let mut pages = 0;
 
-        let response = self
-            .client
-            .get(&url)
-            .header("Accept", "application/vnd.github+json")
-            .send()
-            .await?;
+        while let Some(url) = next_url.take() {
+            let response = self
+                .client
+                .get(&url)
+                .header("Accept", "application/vnd.github+json")
+                .send()
+                .await?;
 
-        let status = response.status();
+            let status = response.status();
 
-        if status == reqwest::StatusCode::NOT_FOUND {
-            return Err(RegistryError::NotFound(package_name.to_string()));
+            if status == reqwest::StatusCode::NOT_FOUND {
+                return Err(RegistryError::NotFound(package_name.to_string()));
+            }
+
+            if status == reqwest::StatusCode::TOO_MANY_REQUESTS {
+                let retry_after = response
+                    .headers()
+                    .get("retry-after")
+                    .and_then(|v| v.to_str().ok())
+                    .and_then(|v| v.parse().ok());
+                return Err(RegistryError::RateLimited {
+                    retry_after_secs: retry_after,
+                });
+            }
+
+            if !status.is_success() {
+                warn!("GitHub API returned status {}: {}", status, url);
+                return Err(RegistryError::InvalidResponse(format!(
+                    "Unexpected status: {}",
+                    status
+                )));
+            }
+
+            pages += 1;
+            if pages < MAX_RELEASE_PAGES {
+                next_url = next_page_url(response.headers());
+            }
+
+            let page: Vec<Release> = response.json().await.map_err(|e| {
+                warn!("Failed to parse GitHub releases response: {}", e);
+                RegistryError::InvalidResponse(e.to_string())
+            })?;
+            releases.extend(page);
         }
-
-        if status == reqwest::StatusCode::TOO_MANY_REQUESTS {
-            let retry_after = response
-                .headers()
-                .get("retry-after")
-                .and_then(|v| v.to_str().ok())
-                .and_then(|v| v.parse().ok());
-            return Err(RegistryError::RateLimited {
-                retry_after_secs: retry_after,
-            });
-        }
-
-        if !status.is_success() {
-            warn!("GitHub API returned status {}: {}", status, url);
-            return Err(RegistryError::InvalidResponse(format!(
-                "Unexpected status: {}",
-                status
-            )));
-        }
-
-        let releases: Vec<Release> = response.json().await.map_err(|e| {
-            warn!("Failed to parse GitHub releases response: {}", e);
-            RegistryError::InvalidResponse(e.to_string())
-        })?;
 
         // Sort releases by published_at (oldest first, newest last)
         // Releases without published_at are placed at the beginning
